@@ -7,9 +7,18 @@ func init() { vxRegister("VX_Session_History", VX_Session_History) }
 // PUSH, outgoing calls, the peer's replies, release of a parked handler, local
 // Close, loss of the connection - with the invariants of several properties
 // checked after every event and at the end against a small reference model.
-// args: steps[, firstOp (-1 = any)]
+// args: steps[, firstOp (-1 = any)[, parkedOutcome(0 ok, 1 status, 2 panic)[, moreEvents(0/1)]]]
 func VX_Session_History(args []int) {
 	steps := args[0]
+	parkedOutcome := 0 // how a parked handler ends: 0 OK result, 1 error status, 2 panic
+	if len(args) > 2 {
+		parkedOutcome = args[2]
+	}
+	nOps := 9
+	if len(args) > 3 && args[3] == 1 {
+		nOps = 11 // also: a REPLY nobody waits for, a frame of an unsupported type
+	}
+	unsupportedFed := false
 	snaps := vxSnapSentinels()
 	var log []string
 	pl := newVxPlugin("rec", &log)
@@ -31,6 +40,12 @@ func VX_Session_History(args []int) {
 			g := &parkedT{seq, make(chan struct{}), !closeBegunFlag()}
 			parked = append(parked, g)
 			<-g.gate
+			switch parkedOutcome {
+			case 1:
+				return nil, NewStatus(1001, "parked handler says no", "")
+			case 2:
+				panic("parked handler panics")
+			}
 		}
 		return append([]byte("r:"), arg...), nil
 	}
@@ -87,7 +102,7 @@ func VX_Session_History(args []int) {
 		}
 	}
 	for step := 0; step < steps; step++ {
-		op := vxChoose("op", 9)
+		op := vxChoose("op", nOps)
 		if step == 0 && len(args) > 1 && args[1] >= 0 {
 			vxAssume(op == args[1])
 		}
@@ -175,9 +190,31 @@ func VX_Session_History(args []int) {
 				vxAssert(n == 1, "[C08] a call whose handler was entered receives its reply, also while the session is being closed")
 				if n == 1 {
 					m, _ := vxParse(w)
-					vxAssert(m.StatusOK() && string(vxBodyOf(m)) == "r:P", "[C08] and it is the genuine reply")
+					switch parkedOutcome {
+					case 0:
+						vxAssert(m.StatusOK() && string(vxBodyOf(m)) == "r:P", "[C08] and it is the genuine reply")
+					case 1:
+						vxAssert(m.Status(true).Code() == 1001, "[C08] and it is the genuine reply (the handler's error status, not a connection error)")
+					case 2:
+						vxAssert(m.Status(true).Code() == CodeInternalServerError, "[C08] and it is the genuine reply (500 for the panic, not a connection error)")
+					}
 				}
 			}
+		case 9: // a REPLY nobody is waiting for
+			vxAssume(!dead)
+			w0 := conn.nWrites()
+			conn.feed(vxFrame(TypeReply, 4242, "", []byte("stale")))
+			vxWaitIdle()
+			vxAssert(conn.nWrites() == w0, "[C03] a stray REPLY is not answered")
+		case 10: // a frame of an unsupported type: the session closes itself
+			vxAssume(!dead && !closeBegun)
+			conn.feed(vxFrame(9, nextSeq, "/h", []byte("u")))
+			nextSeq++
+			vxWaitIdle()
+			unsupportedFed = true
+			closeBegun = true
+			lostBeforeClose = lost
+			vxAssert(!s.Health(), "[C03] a frame of an unsupported type is answered by disconnecting")
 		case 7: // local Close
 			vxAssume(!closeBegun)
 			closeBegun = true
@@ -226,6 +263,9 @@ func VX_Session_History(args []int) {
 	}
 	vxAssert(vxCount(log, "rec:PostDisconnect") == 1, "[C07] the disconnect hook ran exactly once")
 	vxAssert(conn.closes == 1, "[C07] the connection was closed exactly once")
+	if unsupportedFed {
+		vxAssert(conn.isClosed() && conn.closes == 1, "[C03] after a frame of an unsupported type the connection ends up closed")
+	}
 	vxCheckSentinels(snaps)
 	vxCover("session.history")
 }
